@@ -196,7 +196,9 @@ macro_rules! srt2 {
         $rep.sweep(&format!("{}/2-D SRT/196 scales x {nang} angles x 5 translations", stringify!($S)), 196 * nang * 5, |idx, acc| {
             let d = digits(idx, [7, 7, 4, nang, 5]);
             let sf = [MAGS[d[0]] * if d[2] & 1 == 1 { -1.0 } else { 1.0 }, MAGS[d[1]] * if d[2] & 2 == 2 { -1.0 } else { 1.0 }];
-            let ang = (-3.1 + 6.2 * d[3] as f64 / nang as f64 + 0.003) as $S;
+            // one turn densely, plus angles of several and of many turns in the last six slots
+            let big = [7.0, -9.5, 12.566371, 100.0, -1e3, 1e4];
+            let ang = if d[3] as u64 + 6 >= nang { big[(d[3] as u64 + 6 - nang) as usize] } else { -3.1 + 6.2 * d[3] as f64 / nang as f64 + 0.003 } as $S;
             let tf = TRANS[d[4]];
             let s = <$V2>::new(sf[0] as $S, sf[1] as $S);
             let t = <$V2>::new(tf[0] as $S, tf[1] as $S);
